@@ -179,15 +179,18 @@ def run(ctx):
   ctx.check(len(lock_nodes) >= 1, 'C12.finalize-order', fcon, 'finalize sets the lock',
             'finalize no longer sets the lock flag', ff.loc(), instance='locks')
   if lock_nodes and hook_loops:
+    later = []
     ln = lock_nodes[0]
-    # lock last: nothing that can fail or mutate is reachable after it
-    after = g.reachable_from(ln.id) - {ln.id}
-    later = [g.nodes[i] for i in after if g.nodes[i].ast is not None and
-             (g.nodes[i].kind in ('raise_stmt', 'for') or calls_of_node(g.nodes[i]))]
+    for cand in lock_nodes:
+      after = g.reachable_from(cand.id) - {cand.id}
+      lt = [g.nodes[i] for i in after if g.nodes[i].ast is not None and
+            (g.nodes[i].kind in ('raise_stmt', 'for') or calls_of_node(g.nodes[i]))]
+      if lt:
+        later, ln = lt, cand
     ctx.check(not later, 'C12.finalize-order', fcon,
               'the lock is set last: no hook, validation, raise or bind can run after it',
-              'statement `%s` (line %d) can run after the lock is set: a rejection would leave the configuration locked'
-              % (later[0].text(), later[0].lineno) if later else '', ff.loc(ln.ast), instance='lock-last')
+              'statement `%s` (line %d) can run after the lock is set (line %d): a rejection would leave the configuration locked'
+              % (later[0].text(), later[0].lineno, ln.lineno) if later else '', ff.loc(ln.ast), instance='lock-last')
     # every path to the lock passes the hook loop exhausted
     hl = hook_loops[0]
     w = witness(g, g.entry.id, [ln.id], avoid=[hl.id])
